@@ -9,7 +9,8 @@ proof:          lean/BMV/Props/C18.lean — about the lint itself (BMV.Vlog.Lint
                 functions of /repo.
 per instance:   harness/cmd/c18 builds an enumerated family of machines (every static opcode in isolation,
                 every reachable dynamic family, modes ha/vn/hy x Threaded 0..3, every shared-object kind with
-                1..3 processors, ports without IO opcodes, basm-produced machines with the hw-optimisation
+                1..3 processors, every subset of the opcode families that share helper declarations, processor->domain
+                mappings that are not the identity, ports without IO opcodes, basm-produced machines with the hw-optimisation
                 flags, one board flavor, random mixes), calls the real Bondmachine.Write_verilog in a scratch
                 directory, parses the whole file set (harness/vlog) and lean/Oracle/C18.lean runs
                 BMV.Vlog.Source.check on it: per-module [undeclared]/[undefined-module]/[port], then
